@@ -880,6 +880,76 @@ fn ctleval_line(w: &mut dyn Write, r: &mut Rng, twcs: &[TwcSpec], nhelpers: usiz
 /// C11 unit level: `eval_cross_table_lookup_checks_circuit` against the native evaluator on the same explicit
 /// values (random looking-table selections incl. a table repeated among the looking tables, with and without
 /// helper columns). Lines `c11 ctl-evaluator <case> = <1|0> # exp=1 native=ok outer=<ok|differs|..>`.
+/// The final cross-table check in-circuit (`verify_cross_table_lookups_circuit`) against the native one
+/// (`verify_cross_table_lookups`) on explicit first-row openings: two or three tables, one or two lookups, with and
+/// without declared extra looking sums, consistent sums and sums off by a delta.  The outer circuit's first virtual
+/// target is a free witness of the embedding circuit; the verdict must not depend on its value.
+pub fn ctl_sum_circuit_cases(w: &mut dyn Write, r: &mut Rng, count: usize) -> usize {
+    use plonky2::iop::target::Target;
+    use plonky2::iop::witness::{PartialWitness, WitnessWrite};
+    use plonky2::plonk::circuit_builder::CircuitBuilder;
+    use plonky2::plonk::circuit_data::CircuitConfig;
+    use starky::cross_table_lookup::verify_cross_table_lookups_circuit;
+    use starky::lookup::{Column, Filter};
+    let mut n = 0;
+    let cfg = StarkConfig::standard_fast_config();
+    let nch = cfg.num_challenges;
+    for i in 0..count {
+        // lookup 0: table 0 (and, every other case, table 2) looking into table 1; lookup 1 (every third case): 2 -> 0
+        let three = i % 2 == 1;
+        let second = i % 3 == 2;
+        let twc = |t: usize| TableWithColumns::<F>::new(t, vec![Column::single(0)], Filter::new_simple(Column::one()));
+        let mut shape: Vec<(Vec<usize>, usize)> = vec![(if three { vec![0, 2] } else { vec![0] }, 1)];
+        if second { shape.push((vec![2], 0)); }
+        let ctls: Vec<CrossTableLookup<F>> = shape.iter().map(|(l, d)| CrossTableLookup::new(l.iter().map(|&t| twc(t)).collect(), twc(*d))).collect();
+        // openings per table in the order verify_cross_table_lookups consumes them: for each lookup, for each challenge,
+        // the looking tables' Z(1), then the looked table's
+        let with_extra = i % 4 >= 2;
+        let delta = if i % 5 == 0 { 0 } else { 1 + r.below(1000) };
+        let mut zs: [Vec<F>; 3] = [vec![], vec![], vec![]];
+        let mut extra: HashMap<usize, Vec<F>> = HashMap::new();
+        for (li, (looking, looked)) in shape.iter().enumerate() {
+            let mut ex = vec![];
+            for _c in 0..nch {
+                let mut sum = F::ZERO;
+                for &t in looking.iter() { let v = rf10(r); zs[t].push(v); sum += v; }
+                let e = if with_extra && li == 0 { rf10(r) } else { F::ZERO };
+                ex.push(e);
+                zs[*looked].push(sum + e + F::from_canonical_u64(delta));
+            }
+            if with_extra && li == 0 { extra.insert(li, ex); }
+        }
+        let native = match catch_unwind(AssertUnwindSafe(|| verify_cross_table_lookups::<F, D, 3>(&ctls, zs.clone(), &extra, &cfg))) {
+            Ok(Ok(())) => "ok".to_string(), Ok(Err(_)) => "err".into(), Err(_) => panic_site() };
+        for first in [0u64, delta, 1 + r.below(1 << 30)] {
+            let res = catch_unwind(AssertUnwindSafe(|| {
+                let mut b = CircuitBuilder::<F, D>::new(CircuitConfig::standard_recursion_config());
+                let first_t = b.add_virtual_target();
+                assert_eq!(first_t, Target::default());
+                let zt: [Vec<Target>; 3] = [b.add_virtual_targets(zs[0].len()), b.add_virtual_targets(zs[1].len()), b.add_virtual_targets(zs[2].len())];
+                let mut et: HashMap<usize, Vec<Target>> = HashMap::new();
+                for (k, v) in extra.iter() { et.insert(*k, b.add_virtual_targets(v.len())); }
+                for t in zt.iter() { b.register_public_inputs(t); }
+                verify_cross_table_lookups_circuit::<F, D, 3>(&mut b, ctls.clone(), zt.clone(), &et, &cfg);
+                let data = b.build::<C>();
+                let mut pw = PartialWitness::new();
+                pw.set_target(first_t, F::from_canonical_u64(first)).unwrap();
+                for (t, v) in zt.iter().zip(zs.iter()) { pw.set_target_arr(t, v).unwrap(); }
+                for (k, t) in et.iter() { pw.set_target_arr(t, &extra[k]).unwrap(); }
+                data.prove(pw).and_then(|p| data.verify(p))
+            }));
+            let outer = match res { Ok(Ok(())) => "ok".to_string(), Ok(Err(_)) => "err".into(), Err(_) => "err:panic".into() };
+            writeln!(w, "c11 ctlsum-{}tables-{}lookups{} case{i}-first{} = {} # exp={} native={native} outer={outer} delta={delta} first_virtual_target={first}",
+                     if three { 3 } else { 2 }, ctls.len(), if with_extra { "-extra" } else { "" }, if first == 0 { "zero" } else if first == delta { "delta" } else { "random" },
+                     ((native == "ok") == (outer == "ok")) as u8, (native == "ok") as u8).unwrap();
+            n += 1;
+        }
+    }
+    n
+}
+
+fn rf10(r: &mut Rng) -> F { F::from_noncanonical_u64(r.next_u64()) }
+
 pub fn ctl_circuit_cases(w: &mut dyn Write, r: &mut Rng, count: usize) -> usize {
     use plonky2::iop::witness::{PartialWitness, WitnessWrite};
     use plonky2::plonk::circuit_builder::CircuitBuilder;
